@@ -135,6 +135,50 @@ Proof. destruct a; cbn; congruence. Qed.
 Lemma emit_some c s rest : emit c (Some (s, rest)) = Some (String c s, rest).
 Proof. reflexivity. Qed.
 
+(** one step of the round trip: a byte whose pair with its successor is fine *)
+Lemma body_step sh c t rest :
+  pair_ok sh c (shd t) = true ->
+  read_body sh (append (cmap (imgc sh) t) (String c_dq rest)) = Some (t, rest) ->
+  read_body sh (append (cmap (imgc sh) (String c t)) (String c_dq rest)) = Some (String c t, rest).
+Proof.
+  intros Hp IH. unfold pair_ok in Hp.
+  set (K := append (cmap (imgc sh) t) (String c_dq rest)) in *.
+  destruct (follower sh (shd t)) as [nx|] eqn:Hf; [|discriminate].
+  assert (HK : shd K = Some nx).
+  { unfold K. destruct t as [|c' t'].
+    - cbn in Hf |- *. exact Hf.
+    - cbn [shd follower] in Hf. cbn [cmap]. rewrite append_assoc. apply shd_append_ne. exact Hf. }
+  cbn [cmap]. rewrite append_assoc. fold K.
+  destruct (imgc sh c) as [|a [|b [|? ?]]]; try discriminate.
+  + apply andb_prop in Hp. destruct Hp as [Ha Hn]. apply negb_true_iff in Hn.
+    apply action_eqb_eq in Ha.
+    cbn [append read_body]. rewrite HK.
+    rewrite (classify_indep sh a (Some nx) _ None Hn), Ha, IH. reflexivity.
+  + apply andb_prop in Hp. destruct Hp as [Ha Hn]. apply negb_true_iff in Hn.
+    apply action_eqb_eq in Ha.
+    cbn [append read_body shd stl].
+    rewrite (classify_indep sh a (Some b) _ None Hn), Ha, IH. reflexivity.
+Qed.
+
+(** the same step in front of any text [K] whose first byte is the expected follower *)
+Lemma body_step_gen sh c o K t rest :
+  pair_ok sh c o = true -> shd K = follower sh o ->
+  read_body sh K = Some (t, rest) ->
+  read_body sh (append (imgc sh c) K) = Some (String c t, rest).
+Proof.
+  intros Hp HK IH. unfold pair_ok in Hp.
+  destruct (follower sh o) as [nx|] eqn:Hf; [|discriminate].
+  destruct (imgc sh c) as [|a [|b [|? ?]]]; try discriminate.
+  + apply andb_prop in Hp. destruct Hp as [Ha Hn]. apply negb_true_iff in Hn.
+    apply action_eqb_eq in Ha.
+    cbn [append read_body]. rewrite HK.
+    rewrite (classify_indep sh a (Some nx) _ None Hn), Ha, IH. reflexivity.
+  + apply andb_prop in Hp. destruct Hp as [Ha Hn]. apply negb_true_iff in Hn.
+    apply action_eqb_eq in Ha.
+    cbn [append read_body shd stl].
+    rewrite (classify_indep sh a (Some b) _ None Hn), Ha, IH. reflexivity.
+Qed.
+
 Lemma body_rt sh :
   (forall c o, hazard sh c o = false -> pair_ok sh c o = true) ->
   forall s rest, admissibleb sh s = true -> safe sh rest = true ->
@@ -143,24 +187,7 @@ Proof.
   intros Hpairs s rest. induction s as [|c t IH]; intros Hadm Hsafe.
   - cbn [cmap append read_body]. rewrite (close_ok sh rest Hsafe). reflexivity.
   - cbn [admissibleb] in Hadm. apply andb_prop in Hadm. destruct Hadm as [Hh Hadm].
-    apply negb_true_iff in Hh. specialize (IH Hadm Hsafe).
-    pose proof (Hpairs c (shd t) Hh) as Hp. unfold pair_ok in Hp.
-    set (K := append (cmap (imgc sh) t) (String c_dq rest)) in *.
-    destruct (follower sh (shd t)) as [nx|] eqn:Hf; [|discriminate].
-    assert (HK : shd K = Some nx).
-    { unfold K. destruct t as [|c' t'].
-      - cbn in Hf |- *. exact Hf.
-      - cbn [shd follower] in Hf. cbn [cmap]. rewrite append_assoc. apply shd_append_ne. exact Hf. }
-    cbn [cmap]. rewrite append_assoc. fold K.
-    destruct (imgc sh c) as [|a [|b [|? ?]]]; try discriminate.
-    + apply andb_prop in Hp. destruct Hp as [Ha Hn]. apply negb_true_iff in Hn.
-      apply action_eqb_eq in Ha.
-      cbn [append read_body]. rewrite HK.
-      rewrite (classify_indep sh a (Some nx) _ None Hn), Ha, IH. reflexivity.
-    + apply andb_prop in Hp. destruct Hp as [Ha Hn]. apply negb_true_iff in Hn.
-      apply action_eqb_eq in Ha.
-      cbn [append read_body shd stl].
-      rewrite (classify_indep sh a (Some b) _ None Hn), Ha, IH. reflexivity.
+    apply negb_true_iff in Hh. apply body_step; [apply Hpairs; exact Hh | apply IH; assumption].
 Qed.
 
 (** ** 3. the closed side condition *)
@@ -232,3 +259,120 @@ Proof. unfold admissible. induction s; cbn; auto. Qed.
 
 Lemma admissible_bash s : admissible Bash s.
 Proof. unfold admissible. induction s; cbn; auto. Qed.
+
+(** ** pwsh, exactly: every string without a smart double quote (U+201C, U+201D, U+201E) reads back.
+    The pair table covers every byte pair except (E2, 80); that pair is harmless unless the third byte
+    is 9C, 9D or 9E, and the first byte written for any byte is a smart-quote tail only if the byte
+    itself is one. *)
+Lemma read_body_unfold sh c t :
+  read_body sh (String c t) =
+  match classify sh c (shd t) (shd (stl t)) with
+  | Emit1 x => emit x (read_body sh t)
+  | Emit2 x => match t with String _ t' => emit x (read_body sh t') | EmptyString => None end
+  | Skip2 => match t with String _ t' => read_body sh t' | EmptyString => None end
+  | Close1 => Some (EmptyString, t)
+  | Close3 => match t with String _ (String _ t'') => Some (EmptyString, t'') | _ => None end
+  | Expands => None
+  | Unsupported => None
+  end.
+Proof. reflexivity. Qed.
+
+Definition smart_tail_bytes : list ascii := [ch 156; ch 157; ch 158].
+
+Definition pwsh_heads_ok : bool :=
+  forallb (fun c => match shd (imgc Pwsh c) with
+                    | Some h => implb (is_one_of h smart_tail_bytes) (is_one_of c smart_tail_bytes)
+                    | None => false
+                    end) all_bytes
+  && String.eqb (imgc Pwsh (ch 226)) (String (ch 226) EmptyString)
+  && String.eqb (imgc Pwsh (ch 128)) (String (ch 128) EmptyString).
+
+Lemma pwsh_heads_ok_true : pwsh_heads_ok = true.
+Proof. vm_compute. reflexivity. Qed.
+
+Lemma pwsh_exact_core (f : ascii -> string) :
+  (forall c t rest, hazard Pwsh c (shd t) = false ->
+     read_body Pwsh (append (cmap f t) (String c_dq rest)) = Some (t, rest) ->
+     read_body Pwsh (append (cmap f (String c t)) (String c_dq rest)) = Some (String c t, rest)) ->
+  f (ch 226) = String (ch 226) EmptyString -> f (ch 128) = String (ch 128) EmptyString ->
+  (forall c, match shd (f c) with
+             | Some h => implb (is_one_of h smart_tail_bytes) (is_one_of c smart_tail_bytes) = true
+             | None => False
+             end) ->
+  forall s rest, smart_free s = true -> safe Pwsh rest = true ->
+    read_body Pwsh (append (cmap f s) (String c_dq rest)) = Some (s, rest).
+Proof.
+  intros Hstep HE2 H80 Hheads s rest Hs Hsafe.
+  induction s as [|c t IH].
+  - cbn [cmap append]. rewrite read_body_unfold, (close_ok Pwsh rest Hsafe). reflexivity.
+  - cbn [smart_free] in Hs. apply andb_prop in Hs. destruct Hs as [Hc0 Hs]. specialize (IH Hs).
+    destruct (hazard Pwsh c (shd t)) eqn:Hz; [|apply Hstep; assumption].
+    cbn [hazard] in Hz. apply andb_prop in Hz. destruct Hz as [Hc1 Hz].
+    apply Ascii.eqb_eq in Hc1. subst c. destruct t as [|d t1]; [discriminate Hz|]. cbn [shd] in Hz.
+    apply Ascii.eqb_eq in Hz. subst d.
+    cbn [cmap] in IH |- *. rewrite HE2. rewrite H80 in IH |- *. cbn [append] in IH |- *.
+    rewrite read_body_unfold. cbn [shd stl classify]. unfold classify_pwsh at 1. rewrite Ascii.eqb_refl. cbn iota.
+    assert (Hn : is_smart_quote_tail (Some (ch 128)) (shd (append (cmap f t1) (String c_dq rest))) = false).
+    { rewrite Ascii.eqb_refl in Hc0. cbn [andb shd stl] in Hc0. apply negb_true_iff in Hc0.
+      unfold is_smart_quote_tail in *. rewrite Ascii.eqb_refl in *. cbn [andb] in *.
+      destruct t1 as [|c1 t2]; [reflexivity|].
+      cbn [shd] in Hc0. cbn [cmap]. rewrite append_assoc.
+      specialize (Hheads c1). destruct (f c1) as [|h tl]; [destruct Hheads|]. cbn [shd append] in *.
+      fold smart_tail_bytes in *. destruct (is_one_of h smart_tail_bytes); [|reflexivity].
+      cbn [implb] in Hheads. congruence. }
+    rewrite Hn, IH. reflexivity.
+Qed.
+
+(** from the body to the whole constant, for any shell whose chain and delimiters pass [shape_ok] *)
+Lemma roundtrip_from_body sh (P : string -> Prop) :
+  shape_ok sh = true ->
+  (forall s rest, P s -> safe sh rest = true ->
+     read_body sh (append (cmap (imgc sh) s) (String c_dq rest)) = Some (s, rest)) ->
+  forall s rest, P s -> safe sh rest = true ->
+    read sh (append (make_string_constant sh s) rest) = Some (s, rest).
+Proof.
+  intros Hshape Hbody s rest Hp Hsafe.
+  unfold shape_ok in Hshape. apply andb_prop in Hshape. destruct Hshape as [Hshape Hc].
+  apply andb_prop in Hshape. destruct Hshape as [Hsingle Ho].
+  apply String.eqb_eq in Ho. apply String.eqb_eq in Hc.
+  unfold make_string_constant. rewrite Ho, Hc, (chain_charwise _ Hsingle).
+  unfold dq_string. cbn [append read]. change (Ascii.eqb c_dq c_dq) with true. cbn iota.
+  rewrite append_assoc. cbn [append]. apply Hbody; assumption.
+Qed.
+
+Lemma pwsh_shape_ok : shape_ok Pwsh = true.
+Proof. vm_compute. reflexivity. Qed.
+
+Lemma pwsh_pairs_ok : pairs_table_ok Pwsh = true.
+Proof. vm_compute. reflexivity. Qed.
+
+Lemma pwsh_img_E2 : imgc Pwsh (ch 226) = String (ch 226) EmptyString.
+Proof. vm_compute. reflexivity. Qed.
+Lemma pwsh_img_80 : imgc Pwsh (ch 128) = String (ch 128) EmptyString.
+Proof. vm_compute. reflexivity. Qed.
+
+Lemma pwsh_heads c :
+  match shd (imgc Pwsh c) with
+  | Some h => implb (is_one_of h smart_tail_bytes) (is_one_of c smart_tail_bytes) = true
+  | None => False
+  end.
+Proof.
+  pose proof pwsh_heads_ok_true as Hh. unfold pwsh_heads_ok in Hh.
+  apply andb_prop in Hh. destruct Hh as [Hh _]. apply andb_prop in Hh. destruct Hh as [Hheads _].
+  rewrite forallb_forall in Hheads. specialize (Hheads c (all_bytes_complete c)).
+  destruct (shd (imgc Pwsh c)); [exact Hheads | discriminate].
+Qed.
+
+Lemma pwsh_step c t rest :
+  hazard Pwsh c (shd t) = false ->
+  read_body Pwsh (append (cmap (imgc Pwsh) t) (String c_dq rest)) = Some (t, rest) ->
+  read_body Pwsh (append (cmap (imgc Pwsh) (String c t)) (String c_dq rest)) = Some (String c t, rest).
+Proof. intros Hz IH. apply body_step; [|exact IH]. apply (pairs_table_sound Pwsh pwsh_pairs_ok). exact Hz. Qed.
+
+Theorem pwsh_roundtrip_exact s rest :
+  smart_free s = true -> safe Pwsh rest = true ->
+  read Pwsh (append (make_string_constant Pwsh s) rest) = Some (s, rest).
+Proof.
+  apply (roundtrip_from_body Pwsh (fun s => smart_free s = true) pwsh_shape_ok).
+  exact (pwsh_exact_core (imgc Pwsh) pwsh_step pwsh_img_E2 pwsh_img_80 pwsh_heads).
+Qed.
